@@ -45,6 +45,7 @@ fn generate(prop: &str, seed: u64, thorough: bool) -> Option<Plan> {
         "C01" => Some(scen_tcp::gen_c01(seed, thorough)),
         "C02" => Some(scen_udp::gen_c02(seed, thorough)),
         "C03" => Some(scen_ref::gen_c03(seed, thorough)),
+        "C03keys" => Some(scen_ref::gen_c03_keys(seed, thorough)),
         "C04" => Some(scen_link::gen_c04(seed, thorough)),
         "C05" => Some(scen_link::gen_c05(seed, thorough)),
         "C05udp" => Some(scen_c05u::gen_c05u(seed, thorough)),
@@ -94,6 +95,7 @@ fn execute(plan: &Plan) -> Outcome {
         "config-names" => scen_c16::execute_c16(plan),
         "addresses" => scen_c14::execute_c14(plan),
         "interop" => scen_ref::execute_c03(plan),
+        "interop-key-chain" => scen_ref::execute_c03_keys(plan),
         "freshness" => scen_c10::execute_c10(plan),
         "nonces" => scen_c12::execute_c12(plan),
         "unauthenticated" => scen_adv::execute_c06(plan),
